@@ -251,7 +251,7 @@ def replay(pid, d):
     print('call    :', engine.brief_call(d['call']))
     print('outcome :', o['outcome'], len(o['syms']), 'symbols')
     if o['outcome']['status'] != 'ok':
-        bad = 'ValueError' not in o['outcome'].get('mro', []) or d.get('failing_clauses') == ['count_as_requested']
+        bad = 'ValueError' not in o['outcome'].get('mro', []) or d.get('failing_clauses') in (['count_as_requested'], ['sequence_mode_first_applicable'])
         print('VIOLATION property=%s replay=(this file)' % pid if bad else 'refused with a ValueError')
         return 1 if bad else 0
     verdicts, _ = common.validate_observations(pid + '_replay', 'Trace_Seq', [o], shards=1, tag='seq')
